@@ -304,10 +304,23 @@ class Interp:
                 return out
         if isinstance(test, ast.UnaryOp) and isinstance(test.op, ast.Not):
             return [(not t, e) for t, e in self._cond(test.operand, env)]
+        if isinstance(test, ast.Compare) and len(test.ops) > 1:
+            # a <= x <= b  ==  a <= x and x <= b  (the middle operands are names or constants here: evaluated once either way)
+            parts = []
+            left = test.left
+            for op_, c_ in zip(test.ops, test.comparators):
+                parts.append(ast.Compare(left=left, ops=[op_], comparators=[c_]))
+                left = c_
+            return self._cond(ast.BoolOp(op=ast.And(), values=parts), env)
         if isinstance(test, ast.Compare) and len(test.ops) == 1:
             a = self._eval(test.left, env)
             b = self._eval(test.comparators[0], env)
             op = test.ops[0]
+            if isinstance(a, int) and not isinstance(a, bool) and isinstance(b, I):
+                # constant on the left: k <= x  ==  x >= k
+                flip = {ast.Lt: ast.Gt, ast.LtE: ast.GtE, ast.Gt: ast.Lt, ast.GtE: ast.LtE, ast.Eq: ast.Eq, ast.NotEq: ast.NotEq}.get(type(op))
+                if flip is not None:
+                    a, b, op = b, a, flip()
             # concrete
             if isinstance(a, (int, str, bool)) and isinstance(b, (int, str, bool)):
                 try:
